@@ -189,6 +189,8 @@ impl TimeTrigger {
 
         #[cfg(not(test))]
         let current = Local::now();
+        #[cfg(all(log4rs_verif, not(test)))]
+        let current = crate::verif_hooks::clock_now().unwrap_or(current);
         let next_time = TimeTrigger::get_next_time(current, config.interval, config.modulate);
         let next_roll_time = if config.max_random_delay > 0 {
             let random_delay = rand::thread_rng().gen_range(0..config.max_random_delay);
@@ -276,6 +278,31 @@ impl TimeTrigger {
     }
 }
 
+#[cfg(log4rs_verif)]
+impl TimeTrigger {
+    /// Verification hook: the private schedule computation.
+    pub fn verif_get_next_time(
+        current: DateTime<Local>,
+        interval: TimeTriggerInterval,
+        modulate: bool,
+    ) -> DateTime<Local> {
+        TimeTrigger::get_next_time(current, interval, modulate)
+    }
+
+    /// Verification hook: the currently scheduled rotation instant.
+    pub fn verif_scheduled(&self) -> DateTime<Local> {
+        *self.next_roll_time.read().unwrap()
+    }
+}
+
+#[cfg(all(log4rs_verif, feature = "config_parsing"))]
+impl TimeTriggerConfig {
+    /// Verification hook: read access to the parsed configuration.
+    pub fn verif_parts(&self) -> (TimeTriggerInterval, bool, u64) {
+        (self.interval, self.modulate, self.max_random_delay)
+    }
+}
+
 impl Trigger for TimeTrigger {
     fn trigger(&self, _file: &LogFile) -> anyhow::Result<bool> {
         #[cfg(test)]
@@ -291,6 +318,8 @@ impl Trigger for TimeTrigger {
 
         #[cfg(not(test))]
         let current: DateTime<Local> = Local::now();
+        #[cfg(all(log4rs_verif, not(test)))]
+        let current = crate::verif_hooks::clock_now().unwrap_or(current);
         let mut next_roll_time = self.next_roll_time.write().unwrap();
         let is_trigger = current >= *next_roll_time;
         if is_trigger {
